@@ -114,6 +114,15 @@ DIRECTED = {
                               "cload 1 0 1", "casave 1 1", "cgets 1 0", "casave 0 1", "casave 1 0", "cfree 1", "caload 1 0 0", "casave 1 1", "cfree 0", "cfree 1"],
     # ---- seeded changes C03-4, C03-5, C03-6 (shrink after use; list growth boundary)
     # a vnadata_t whose frequency allocation (10) exceeds its frequency count (3) switches to per-frequency z0, grows to 6 inside the allocation; rows 3..5 are used
+    # the format language swept systematically from its grammar table (lib/mem_gen.py FMT_*): every parameter x form and every fixed name alone,
+    # then lists of 1..6 entries of every name of the longest class (the tightest fit of the canonical string), set, read back, saved as NPD and reloaded
+    "format_grammar_sweep": ["dalloc 0 1", "dinit 0 1 2 2 2", "dsetfv 0 0", "dalloc 1 1"] +
+                            ["dsetfmt 0 %s" % n for n in mem_gen.FMT_NAMES] +
+                            [op for k in range(1, 7) for rot in range(len(mem_gen.FMT_LONGEST))
+                             for op in ("dsetfmt 0 " + ",".join(mem_gen.FMT_LONGEST[(rot + i) % len(mem_gen.FMT_LONGEST)] for i in range(k)), "dgetfmt 0")] +
+                            ["dconv 0 1 10"] +
+                            [op for k in range(1, 7) for op in ("dsetfmt 1 " + ",".join(mem_gen.FMT_FORMS[i % 2] for i in range(k)), "dsave 1 0 x.npd", "dload 0 0 x.npd")] +
+                            ["ddig 0", "ddig 1"],
     "data_shrink_then_fz0_then_grow": ["dalloc 0 1", "dinit 0 1 2 2 10", "dinit 0 1 2 2 3", "dsetfz0 0 1 0 75 0", "dresize 0 1 2 2 6", "dgetfz0 0 4 1", "dgetfz0v 0 5",
                                        "dsetfz0 0 3 1 60 1", "dsetfz0v 0 5 0 45", "ddig 0", "dsave 0 0 x.npd", "daddf 0 9e9", "dgetfz0 0 6 0", "ddig 0", "dfree 0"],
     "data_shrink_ports_then_fz0_then_grow": ["dalloc 0 1", "dinit 0 1 4 4 6", "dresize 0 1 2 2 2", "dsetfz0v 0 1 0 30", "dresize 0 1 4 4 5", "dgetfz0 0 4 3", "dsetfz0 0 3 3 60 1",
